@@ -2,7 +2,70 @@
 import itertools
 from .common import *   # noqa
 
-CONTRACTS = []
+import z3
+from pyvc.exec import Obj, Opaque
+
+IO = 'cmaqfiles/_ioapi.py'
+
+
+class NoEffectAssumed(Contract):
+    """ASSUMED summary used while proving updatemeta: the callee does not change the row/column/layer counts, the
+    dimensions other than VAR, or the unlimited flags (its own clauses are checked by the bounded harness)"""
+    prop = 'C10'
+
+    def __init__(self, qual):
+        self.target = IO + '::ioapi_base.' + qual
+        self.name = qual + '[assumed frame]'
+
+    def apply(self, I, func, args, kwargs):
+        I.ctx.ghost.setdefault('called', []).append(self.target.split('.')[-1])
+        I.ctx.trust_contract = getattr(I.ctx, 'trust_contract', set())
+        I.ctx.trust_contract.add(self.target + ' (assumed frame)')
+        return None
+
+
+class UpdateMeta(Contract):
+    """updatemeta: afterwards NLAYS/NCOLS/NROWS equal the dimension lengths, the TSTEP dimension is unlimited, the
+    DATE-TIME dimension exists with length 2, and the variable list / time flags are refreshed (getVarlist, updatetflag called)"""
+    prop = 'C10'
+    target = IO + '::ioapi_base.updatemeta'
+    uses = [NoEffectAssumed('getVarlist'), NoEffectAssumed('_updatetime'), NoEffectAssumed('updatetflag')]
+
+    def __init__(self, stale, has_dt):
+        self.stale, self.has_dt = stale, has_dt
+        self.name = 'updatemeta[%s counts,%s DATE-TIME]' % ('stale' if stale else 'no', 'with' if has_dt else 'without')
+
+    def inputs(self, ctx, I):
+        ctx.modstate[(IO, '_ioapi_defaults')] = {}
+        self.n = dict(LAY=ctx.fresh('nlay'), ROW=ctx.fresh('nrow'), COL=ctx.fresh('ncol'), TSTEP=ctx.fresh('nt'))
+        dims = {d: dim_obj(I, d, n, unlimited=ctx.fresh('unl_' + d, 'Bool')) for d, n in self.n.items()}
+        if self.has_dt:
+            dims['DATE-TIME'] = dim_obj(I, 'DATE-TIME', 2)
+        attrs = {}
+        if self.stale:
+            attrs = dict(NLAYS=ctx.fresh('old_nlays'), NROWS=ctx.fresh('old_nrows'), NCOLS=ctx.fresh('old_ncols'))
+        f = pnc_file(I, dimensions=dims, attrs=attrs, relpath=IO, clsname='ioapi_base')
+        return dict(self=f, attdict={})
+
+    def requires(self, inp):
+        return And(*[ge(n, 0) for n in self.n.values()])
+
+    def ensures(self, inp, res, I):
+        a = inp['self'].attrs
+        d = a['dimensions']
+        called = I.ctx.ghost.get('called', [])
+        dt = d.get('DATE-TIME')
+        return [('NLAYS=len(LAY)', eq(a.get('NLAYS'), self.n['LAY'])), ('NROWS=len(ROW)', eq(a.get('NROWS'), self.n['ROW'])),
+                ('NCOLS=len(COL)', eq(a.get('NCOLS'), self.n['COL'])),
+                ('TSTEP-unlimited', eq(d['TSTEP'].attrs['_unlimited'], True)),
+                ('DATE-TIME-dimension=2', isinstance(dt, Obj) and eq(dt.attrs['_len'], 2)),
+                ('dimension-lengths-kept', And(*[eq(d[k].attrs['_len'], n) for k, n in self.n.items()])),
+                ('variable-list-refreshed-then-time-flags', 'getVarlist' in called and 'updatetflag' in called and called.index('getVarlist') < called.index('updatetflag')),
+                ('counts-listed-as-attributes', all(k in a['_ncattrs'] for k in ('NLAYS', 'NROWS', 'NCOLS')))]
+
+
+CONTRACTS = [UpdateMeta(s, h) for s in (False, True) for h in (False, True)]
+
 
 
 def ioapi_ops(f, np):
@@ -101,8 +164,10 @@ def bounded_replay(p):
 
 
 META = dict(
-    level='exploration',
-    technique='bounded run-time invariant ioapi_wf on the real IOAPI operations (operation sequences)',
-    text='the IOAPI coherence invariant is evaluated after every operation sequence of the stated bound on files built from arrays, GRIDDESC and disk.',
-    note='bounded only.',
-    assumptions=[], explanation='')
+    level='other',
+    technique='updatemeta proved by pyvc (modular, callees as assumed frames); the full coherence invariant by bounded run-time contract over operation sequences',
+    text='Proved for any dimension lengths and any previous attribute values: after updatemeta the row/column/layer count attributes equal the dimension lengths, TSTEP is unlimited, DATE-TIME '
+         'exists with length 2, and the variable list is refreshed before the time flags. Bounded: the complete ioapi_wf invariant after every operation sequence of the stated bound.',
+    note='getVarlist/_updatetime/updatetflag are assumed frames inside the proof; VAR-LIST string handling and TFLAG regeneration are bounded only.',
+    assumptions=[],
+    explanation='mixed: proof obligations for updatemeta + bounded exploration of operation sequences')
